@@ -39,7 +39,7 @@ func hasOwner(s stepInfo, owner string) bool {
 
 func TestC05(t *testing.T) {
 	RunSeq(t, SeqCheck{
-		Prop: "C05",
+		Prop: "C05", FaultPct: 6, TolerateResidue: true, // C05 also speaks of logs whose tail was torn by a crash
 		Profile: Profile{Name: "compaction", Weights: weightsWith(map[string]int{"fork_compact": 9, "compact": 6, "prune_yes": 7, "set": 30, "claim": 9, "claim_id": 6, "plan": 4}),
 			BadRef: 4, Spoil: 3, Results: 18, MinSteps: 8, MaxSteps: 34, RedatePct: -1}, // C05 speaks of logs the CLI produces: time grows along them
 		Rule: "random command histories with a fork point: the store is copied, the copy compacted (and compacted again), and every later command is run on both copies; non-trivial = before a compaction the history has a prune, a re-claim/unclaim, a title/body/epic change, >= 2 results on one task or a reopen, and >= 1 mutation follows the fork" + distinctRule,
@@ -305,7 +305,7 @@ func TestC20(t *testing.T) {
 	RunSeq(t, SeqCheck{
 		Prop: "C20",
 		Profile: Profile{Name: "results", Weights: weightsWith(map[string]int{"set": 44, "new_task": 18, "compact": 8, "prune_yes": 5, "claim": 4}),
-			BadRef: 10, Spoil: 4, Results: 60, MinSteps: 6, MaxSteps: 30},
+			BadRef: 10, Spoil: 4, Results: 60, MinSteps: 6, MaxSteps: 30, RedatePct: 8},
 		Rule: "random command histories in which most set / new task commands attach a result (plain, ./, a/../b, escaping, .ergo, absolute, missing paths; assorted summaries; targets from all roles) followed by state changes, reassignment, prune, repeated compact; non-trivial = a result path that needs cleaning or must be refused, or >= 2 results on one task followed by a compact" + distinctRule,
 		NonTrivial: func(h []stepInfo) bool {
 			if anyStep(h, func(s stepInfo) bool {
